@@ -387,7 +387,7 @@ def _plans(tier, rng):
 def run_bounded(rep: Report, tier: str) -> None:
     global _DEADLINE
     rng = random.Random(f"{seed()}|C06|plans")
-    _DEADLINE = deadline(tier, 150, 25 * 60)  # safety net only: the quick workload is sized for ~15 s on 16 idle cores
+    _DEADLINE = deadline(tier, 300, 25 * 60)  # safety net only: the quick workload is sized for ~15 s on 16 idle cores
     rep.rule = (
         "case = (network, size assignment from {1,2,3}, binary tree, ordered list of <= 3 distinct indices each either "
         "sliced or projected to a value, (prefer_einsum, implementation) rotated); one evaluation = one such case with all "
